@@ -88,7 +88,17 @@ where
     let g = Gated(svc, sh, call);
     actix_service::fn_factory(move || {
         let g = g.clone();
-        async move { Ok::<_, ()>(g) }
+        // earlier builder calls take longer to create their service: the services of one worker become ready in the reverse of
+        // the order in which they were registered
+        // (yields, not timers: outside an actix System the worker threads create their services through `Handle::block_on` on
+        // the caller's runtime, whose thread is blocked in `ServerBuilder::run` and drives no timers meanwhile)
+        let yields = 3 * 8usize.saturating_sub(call.min(8));
+        async move {
+            for _ in 0..yields {
+                tokio::task::yield_now().await;
+            }
+            Ok::<_, ()>(g)
+        }
     })
 }
 
